@@ -320,6 +320,25 @@ type vh02Pending struct {
 func vh02ClientRun(o *vhOut, what string, msize uint32, stream []byte, pend []vh02Pending, max int) {
 	rd := &vh02Reader{data: stream}
 	c := &Client{conn: vh02Conn{rd}, pending: map[tag]*response{}, messageSize: msize, log: ulog.Null, recvr: make(chan bool, 1)}
+	vh02ClientDrive(o, what, msize, c, rd, stream, pend, max)
+}
+
+// vh02ClientRunNeg: the Client is built by the real NewClient, which proposes `proposed` and is granted the smaller
+// `granted` by the (scripted) server; the frames that follow are judged by the GRANTED size: that is the msize of the
+// session, whatever the client asked for.
+func vh02ClientRunNeg(o *vhOut, proposed, granted uint32, stream []byte, pend []vh02Pending, max int) {
+	rv := vh02Encode(1, &rversion{MSize: granted, Version: HighestVersionString()}) // NewClient's Tversion carries the first tag of its pool: 1
+	rd := &vh02Reader{data: append(append([]byte{}, rv...), stream...)}
+	c, err := NewClient(vh02Conn{rd}, WithMessageSize(proposed))
+	if err != nil || rd.pos != len(rv) {
+		vh02id++
+		o.Emit(map[string]interface{}{"kind": "flag", "id": vh02id, "what": "client-negotiated: NewClient over a scripted Rversion", "ok": false, "pos": rd.pos})
+		return
+	}
+	vh02ClientDrive(o, "client-negotiated", granted, c, rd, stream, pend, max)
+}
+
+func vh02ClientDrive(o *vhOut, what string, msize uint32, c *Client, rd *vh02Reader, stream []byte, pend []vh02Pending, max int) {
 	resps := map[int]*response{}
 	for _, p := range pend {
 		m, err := msgDotLRegistry.get(0, msgType(p.Typ))
@@ -623,6 +642,23 @@ func TestVerifC02(t *testing.T) {
 	for _, sz := range []uint32{maximumLength, maximumLength + 1, 8 << 20, 8<<20 + 1, 1<<32 - 1, 6} {
 		vh02ClientRun(o, "client-size", 8<<20, vh02SetSize(rframes[0], sz), pendAll, 2)
 	}
+	// 6b. the limit is the msize of the SESSION: a client that proposed more and was granted less refuses (at the header) a
+	// reply longer than what was granted
+	for _, pg := range [][2]uint32{{8192, 200}, {65536, 4096}, {8192, 8191}, {4096, 4096}} {
+		proposed, granted := pg[0], pg[1]
+		for _, total := range []uint32{granted - 1, granted, granted + 1, granted + 12, proposed, proposed + 1} {
+			if total > 70000 {
+				continue
+			}
+			pay := make([]byte, total-11)
+			for i := range pay {
+				pay[i] = byte(i)
+			}
+			fr := vhFrame(byte(msgRread), 41, append(vhLE32(uint32(len(pay))), pay...))
+			good := vhFrame(byte(msgRclunk), 42, nil)
+			vh02ClientRunNeg(o, proposed, granted, append(append([]byte{}, fr...), good...), []vh02Pending{{41, int(msgRread)}, {42, int(msgRclunk)}}, 3)
+		}
+	}
 	// 7. frames too large for the Coq evaluation: observed numbers only
 	for _, c := range [][3]uint32{
 		{maximumLength, maximumLength, maximumLength}, {maximumLength, maximumLength, 1000}, {1<<32 - 1, maximumLength, maximumLength},
@@ -728,6 +764,44 @@ func TestVerifC02(t *testing.T) {
 				vh02Inflight("session "+path+" tag reuse after rejection", 8192, stream)
 				vh02Sess(o, r, path, 8192, stream, true)
 				vh02InflightDone()
+			}
+		}
+		vh02SessCuts = nil
+	}
+	// 8e. resynchronisation must not depend on what earlier traffic left in the recycled buffers: replies with an EMPTY
+	// body (Rflush) go out first, then a rejected frame WITH a body (unknown type / body shorter than the fixed part),
+	// then good frames, which must be answered one by one.  Written frame by frame so that the replies (and whatever
+	// they recycle) are complete before the rejected frame arrives; repeated, because sync.Pool is per-P.
+	{
+		junk := func(n int) []byte {
+			b := make([]byte, n)
+			for i := range b {
+				b[i] = 9
+			}
+			return b
+		}
+		fl := func(tg uint16) []byte { return vh02Encode(tg, &tflush{OldTag: 7}) }
+		shortw := func(tg uint16, n int) []byte { return vhFrame(byte(msgTwalk), tg, junk(n)[:n]) } // n < 10: shorter than fid, newfid, nwname
+		for rep := 0; rep < 4; rep++ {
+			for _, c := range [][][]byte{
+				{fl(60), fl(61), fl(62), vhFrame(3, 63, junk(40)), vh02Encode(64, &tclunk{fid: 9}), vh02Encode(65, &tclunk{fid: 9})},
+				{fl(60), fl(61), shortw(63, 9), vh02Encode(64, &tclunk{fid: 9}), fl(66), vhFrame(54, 67, junk(300)), vh02Encode(68, &tgetattr{fid: 3})},
+				{fl(60), vhFrame(3, 63, junk(1)), fl(61), vhFrame(3, 64, junk(7)), fl(62), vhFrame(3, 65, junk(23)), vh02Encode(69, &tclunk{fid: 9})},
+			} {
+				var stream []byte
+				cuts, off := []int{}, 0
+				for _, f := range c {
+					stream = append(stream, f...)
+					off += len(f)
+					cuts = append(cuts, off)
+				}
+				for _, path := range []string{"vec", "generic"} {
+					vh02SessCuts = cuts
+					vh02Flush(o)
+					vh02Inflight("session "+path+" rejected frame after empty-body replies", 8192, stream)
+					vh02Sess(o, r, path, 8192, stream, true)
+					vh02InflightDone()
+				}
 			}
 		}
 		vh02SessCuts = nil
